@@ -84,6 +84,9 @@ def ev_sym(e, env):
     nm=type(e).__name__
     if nm in ("IndexedSum","IndexedProduct"):
         return opaque("struct",[ev_sym(a,env) for a in e.args])
+    if isinstance(e, sympy.Mod):
+        from vf.parse_code import modv
+        return modv(ev_sym(e.args[0],env), ev_sym(e.args[1],env))
     if isinstance(e, AppliedUndef):
         f=e.func; name=f.display_name if isinstance(f, DimensionSymbol) else f.__name__
         return opaque("fn:"+name,[ev_sym(a,env) for a in e.args])
@@ -365,6 +368,8 @@ def make_generator(rnd):
             # a power whose base is an exponential or another elementary function, with exponents of more than one token
             base = rnd.choice([exp, sin, cos, sinh, tan])(gen(d - 1))
             return base ** rnd.choice([Rational(3, 2), rnd.choice(syms), -rnd.choice(syms), 10, 12, rnd.choice(syms) + 1, Rational(1, 3), -2])
+        if rnd.random() < 0.04:
+            return sympy.Mod(gen(d - 1), rnd.choice(syms + [sympy.Integer(3), sympy.Integer(5)]))   # an infix operator of low precedence in LaTeX
         if rnd.random() < 0.25:
             f = rnd.choice(funs)
             return f(gen(d - 1)) if rnd.random() < 0.7 else rnd.choice(funs2)(gen(d - 1), rnd.choice(syms))
